@@ -1,4 +1,5 @@
 import PydraModel.StateAlg.Lemmas3
+import PydraModel.StateAlg.OldKeys
 /-
 C01 — Split expands to exactly the outer/inner product of the split inputs.
 
@@ -14,29 +15,18 @@ def WellFormed (s : Spl) : Prop := s.wf = true
 
 instance (s : Spl) : Decidable (WellFormed s) := by unfold WellFormed; infer_instance
 
-/-- The decidable tree condition under which `State.splits`' global `keys` list stays aligned with the index tuples:
-    in the left-nested binary normal form, no operator with a *field* as left operand and a *compound* right operand is
-    evaluated after some other operator has already been evaluated (`keys = new_keys_L + keys` then puts the field
-    in front of fields that precede it). -/
-def KeysOK (s : Spl) : Prop :=
-  (match normalize s with
-   | some t => keysOK true t
-   | none => false) = true
-
-instance (s : Spl) : Decidable (KeysOK s) := by unfold KeysOK; infer_instance
-
 /-- how a verdict of the reference reads as an outcome of `prepare_states`: rejection = the ValueError of `State.splits` -/
 def ofSpec {β : Type} : Option β → Except Err β
   | some x => .ok x
   | none => .error .shape
 
-/-- FULL (index level): for every splitter tree of any size and any shapes/lengths, under `KeysOK`, the states computed by
-    the stack machine are exactly the reference's nested loops — same jobs, same order, same index for every field —
-    and the machine raises the shape error exactly when the reference rejects. -/
-theorem C01_refines_ind (env : ShapeEnv) (s : Spl) (hwf : WellFormed s) (hk : KeysOK s) :
+/-- FULL (index level): for EVERY well-formed splitter tree — any number of fields, any nesting, any shapes/lengths — the
+    states computed by the stack machine are exactly the reference's nested loops — same jobs, same order, same index for
+    every field — and the machine raises the shape error exactly when the reference rejects.
+    (Since the repair of D1 every processed term carries its own keys; no `KeysOK` side condition is left.) -/
+theorem C01_refines_ind (env : ShapeEnv) (s : Spl) (hwf : WellFormed s) :
     statesInd env s = ofSpec (expandInd env s) := by
   obtain ⟨t, ht⟩ := normalize_of_wf s hwf
-  have hk' : keysOK true t = true := by simpa [KeysOK, ht] using hk
   have hspec : expandInd env s = (expandB (idxElems env) env t).map (·.rows) := by
     simp only [expandInd, jobs]
     rw [expand_norm _ _ s t ht]; rfl
@@ -53,24 +43,11 @@ theorem C01_refines_ind (env : ShapeEnv) (s : Spl) (hwf : WellFormed s) (hk : Ke
     simp only [he] at hev
     obtain ⟨hx, _⟩ := hev
     simp only [hx, Option.map_some, ofSpec, iterSplits]
-    cases t with
-    | leaf n => simp [Bin.fields]
-    | node d l r =>
-      have := evKeys_aligned (.node d l r) true [] hk' (fun _ => rfl)
-      simp only [List.nil_append] at this
-      simp [this]
 
-/-- Every splitter over at most four fields satisfies `KeysOK` (C01's stated quantifier). -/
-theorem C01_keysOK_of_le4 (s : Spl) (hwf : WellFormed s) (h : s.fields.length ≤ 4) : KeysOK s := by
-  obtain ⟨t, ht⟩ := normalize_of_wf s hwf
-  have hf := fields_normalize s t ht
-  have : t.nleaves ≤ 4 := by rw [nleaves_eq_fields, hf]; exact h
-  simp [KeysOK, ht, keysOK_le4 t this]
-
-/-- C01 at its stated quantifier (≤ 4 fields), for lists of ANY length / shape. -/
-theorem C01_le4 (env : ShapeEnv) (s : Spl) (hwf : WellFormed s) (h : s.fields.length ≤ 4) :
+/-- C01 at its stated quantifier (≤ 4 fields) is the special case; kept under its old name. -/
+theorem C01_le4 (env : ShapeEnv) (s : Spl) (hwf : WellFormed s) (_h : s.fields.length ≤ 4) :
     statesInd env s = ofSpec (expandInd env s) :=
-  C01_refines_ind env s hwf (C01_keysOK_of_le4 s hwf h)
+  C01_refines_ind env s hwf
 
 /-- Rejection does not depend on the keys: for EVERY well-formed tree the machine fails iff the reference rejects, and the
     failure is the shape error ("inner splits over operands of different shape are rejected"). -/
@@ -107,7 +84,7 @@ theorem C01_inner_mismatch (env : ShapeEnv) (a b : Spl) (ea eb : Exp Nat)
   simp [ha', hb', zipO, Exp.zip, hne]
 
 /-- "Empty splits give an empty list": if the reference does not reject and some split field has no element, there is
-    no job — for every well-formed tree (no `KeysOK` needed: no row, nothing to mislabel). -/
+    no job — for every well-formed tree. -/
 theorem C01_empty (env : ShapeEnv) (s : Spl) (hwf : WellFormed s) (n : Name) (hn : n ∈ s.fields)
     (h0 : prod (env n) = 0) (hok : (expandInd env s).isSome = true) :
     statesInd env s = .ok [] := by
@@ -132,7 +109,7 @@ theorem C01_empty (env : ShapeEnv) (s : Spl) (hwf : WellFormed s) (n : Name) (hn
 
 /-- "… and the unchanged value of every other field": the per-job task is the base task with exactly the fields of the
     job's `states_val` entry replaced (model of `_split_task` / `attrs.evolve`). -/
-theorem C01_other_fields_unchanged (base vals : List (Name × Nested)) :
+theorem C01_other_fields_unchanged {α : Type} (base vals : List (Name × α)) :
     (splitTask base vals).map (·.1) = base.map (·.1) ∧
     (∀ e ∈ base, dictGet? vals e.1 = none → e ∈ splitTask base vals) ∧
     (∀ e ∈ base, ∀ x, dictGet? vals e.1 = some x → (e.1, x) ∈ splitTask base vals) := by
@@ -162,16 +139,16 @@ theorem rectangular_of_flat (venv : VEnv) (s : Spl) (h : FlatLists venv s) : Rec
   simp [h n hn, dims?]
 
 /-- FULL (value level): `states_val` — the value every job receives for every split field — equals the reference's
-    nested loops over the depth-`container_ndim` elements of the fields, for every tree (`KeysOK`) and all rectangular
+    nested loops over the depth-`container_ndim` elements of the fields, for EVERY tree (any number of fields) and all rectangular
     values of any size. -/
-theorem C01_refines (venv : VEnv) (s : Spl) (hwf : WellFormed s) (hk : KeysOK s) (hr : Rectangular venv s) :
+theorem C01_refines (venv : VEnv) (s : Spl) (hwf : WellFormed s) (hr : Rectangular venv s) :
     statesVal venv s = ofSpec (expandVal venv s) := by
   obtain ⟨t, ht⟩ := normalize_of_wf s hwf
   have hf := fields_normalize s t ht
   let env := shapeEnv venv
   let L : Name → List Nested := fun n => flatten (venv n).2 (venv n).1
   let g : Name → Nat → Nested := fun k i => (L k).getD i (.leaf 0)
-  have hind := C01_refines_ind env s hwf hk
+  have hind := C01_refines_ind env s hwf
   have hspecI : expandInd env s = (expandB (idxElems env) env t).map (·.rows) := by
     simp only [expandInd, jobs]
     rw [expand_norm _ _ s t ht]; rfl
@@ -211,30 +188,40 @@ theorem C01_refines (venv : VEnv) (s : Spl) (hwf : WellFormed s) (hk : KeysOK s)
       show p.2 < (L p.1).length
       omega
 
-/-- C01 as stated: at most four fields, plain lists of ANY length: every job receives exactly the matching element of
-    every split field, jobs in nested-loop order; rejected exactly when the reference rejects. -/
-theorem C01_le4_values (venv : VEnv) (s : Spl) (hwf : WellFormed s) (h : s.fields.length ≤ 4) (hflat : FlatLists venv s) :
+/-- C01 as stated, and beyond: ANY number of fields, plain lists of ANY length: every job receives exactly the matching
+    element of every split field, jobs in nested-loop order; rejected exactly when the reference rejects. -/
+theorem C01_values (venv : VEnv) (s : Spl) (hwf : WellFormed s) (hflat : FlatLists venv s) :
     statesVal venv s = ofSpec (expandVal venv s) :=
-  C01_refines venv s hwf (C01_keysOK_of_le4 s hwf h) (rectangular_of_flat venv s hflat)
+  C01_refines venv s hwf (rectangular_of_flat venv s hflat)
 
-/-- Witness D1 (outside C01's quantifier, inside "nest arbitrarily"): for `[[a,b],[c,[d,e]]]` the keys come out as
-    `[c,a,b,d,e]` while the index tuples are in the order a..e; with lists of different lengths the jobs differ
-    from the reference. -/
+/-- What the code did BEFORE the repair of D1 (documentation; `OldKeys.splits` is the old four-case machine with one global
+    `keys` list): for `[[a,b],[c,[d,e]]]` the keys came out as `[c,a,b,d,e]` while the index tuples are in the order a..e.
+    The repaired machine returns the fields in order, and the old witness is now a regression case of the theorem above. -/
 def s5 : Spl := .outer [.outer [.fld 0, .fld 1], .outer [.fld 2, .outer [.fld 3, .fld 4]]]
-def env5 : ShapeEnv := fun n => if n = 0 then [2] else if n = 2 then [1] else [1]
+def env5 : ShapeEnv := fun n => if n = 0 then [2] else [1]
 
 theorem C01_witness_5 :
-    ¬ KeysOK s5 ∧
-    splits env5 (toRPN s5) = .ok ([[0, 0, 0, 0, 0], [1, 0, 0, 0, 0]], [2, 0, 1, 3, 4]) ∧
-    statesInd env5 s5 ≠ ofSpec (expandInd env5 s5) := by
-  refine ⟨by decide, by decide, ?_⟩
+    OldKeys.splits env5 (toRPN s5) = .ok ([[0, 0, 0, 0, 0], [1, 0, 0, 0, 0]], [2, 0, 1, 3, 4]) ∧
+    splits env5 (toRPN s5) = .ok ([[0, 0, 0, 0, 0], [1, 0, 0, 0, 0]], [0, 1, 2, 3, 4]) ∧
+    statesInd env5 s5 = ofSpec (expandInd env5 s5) := by
+  refine ⟨by decide, by decide, by decide⟩
+
+/-- "… each job receives exactly the matching element": the value substituted into the per-job task is the indexed element
+    WHATEVER it is (generic value type — it may be Python's `None`, `0`, `''`, `[]`: presence of the key decides). -/
+theorem C01_substitutes_any_value {α : Type} (base vals : List (Name × α)) (e : Name × α) (he : e ∈ base) (x : α)
+    (hx : dictGet? vals e.1 = some x) : (e.1, x) ∈ splitTask base vals := by
+  simp only [splitTask, List.mem_map]
+  exact ⟨e, he, by simp [hx]⟩
+
+/-- Documentation witness: the variant `state_val = vals.get(key); if state_val is not None: …` loses a `None` element —
+    the job keeps the base value (the whole un-split list) instead of receiving `None`; the code's `try/except KeyError`
+    delivers it. -/
+theorem C01_witness_not_none :
+    splitTask [(0, some 7)] [(0, (none : Option Nat))] = [(0, none)] ∧
+    splitTaskNotNone [(0, some 7)] [(0, (none : Option Nat))] = [(0, some 7)] := by
   decide
 
-/-- Non-vacuity of the hypotheses: a four-field tree mixing outer, inner, an n-ary node and a one-element tuple. -/
-example : WellFormed (.outer [.fld 0, .inner [.fld 1, .inner [.fld 2]], .fld 3]) ∧
-    KeysOK (.outer [.fld 0, .inner [.fld 1, .inner [.fld 2]], .fld 3]) := by decide
-
-/-- … and a six-field tree that is `KeysOK` (the theorem is not limited to four fields). -/
-example : KeysOK (.outer [.fld 0, .outer [.fld 1, .outer [.inner [.fld 2, .fld 3], .fld 4, .fld 5]]]) := by decide
+/-- Non-vacuity: a six-field tree mixing outer, inner, an n-ary node and a one-element tuple is well formed. -/
+example : WellFormed (.outer [.fld 0, .outer [.fld 1, .outer [.inner [.fld 2, .inner [.fld 3]], .fld 4, .fld 5]]]) := by decide
 
 end PydraModel.StateAlg
